@@ -296,3 +296,17 @@ Proof.
   vm_compute. split; [reflexivity|discriminate].
 Qed.
 Print Assumptions C12_table_parsers_frozen_refuted.
+
+(* Tie T for the ALGORITHM: `meta_or_src` / `meta_or_abstract_src` / `meta_and_src` are translated by
+   harness/tables/MetaMergeAlg.py from the CURRENT source text of bases.py (ABCOrAndMeta.__or__ and
+   __and__: which class's __dict__ each loop consults, in which order, over which setting list) on every
+   run; they equal the model's merge functions for all Meta contents, so the merge algebra above
+   (left wins / fallback / special attributes not inherited / in-place overlay) is about the loops the
+   source spells out now. *)
+From DW Require Import T_MetaMergeAlg MetaMergeSrcTie.
+Theorem C12_merge_source_tie :
+  (forall src other, meta_or_src src other = meta_or src other) /\
+  (forall other, meta_or_abstract_src other = meta_or_abstract other) /\
+  (forall cls other, meta_and_src cls other = meta_and cls other).
+Proof. exact (conj meta_or_src_eq (conj meta_or_abstract_src_eq meta_and_src_eq)). Qed.
+Print Assumptions C12_merge_source_tie.
